@@ -326,11 +326,18 @@ func gen(seed int64, n int, tier string) []interface{} {
 				}
 			}
 		}
-		// a namesake: one case in five has a second class of the same simple name in the other package (two StringUtils
+		// a namesake: one case in three has a second class of the same simple name in the other package (two StringUtils
 		// of one project are two classes for every figure of the summary). Only a class nobody calls gets one, and the
 		// namesake calls nothing, so no receiver of the rendered sources is ambiguous.
-		if r.Intn(5) == 0 {
+		if r.Intn(3) == 0 {
 			ci := r.Intn(len(in.Classes))
+			for j, c := range in.Classes { // a utility class first: the summary counts those
+				for _, part := range c.Name {
+					if part == "Util" || part == "Utils" {
+						ci = j
+					}
+				}
+			}
 			o := in.Classes[ci]
 			called := false
 			for _, c := range in.Classes {
